@@ -20,6 +20,51 @@ def ways(text, exp, base):
     return outs
 
 
+MON_CFG = '''SPECIFICATION Spec
+CHECK_DEADLOCK FALSE
+CONSTANT Topics = {"p", "q", "a", "a2", "b"}
+CONSTANT Payloads = {0, 1}
+CONSTANT Deltas = {0, 1}
+CONSTANT MaxLen = %d
+CONSTANT Reactivate = FALSE
+INVARIANT %s
+'''
+
+
+def binding_theorem(rep, rnd, thorough):
+    """Model level (C02 <-> L3): on every trace of the message bus, a property shape that HplScoping!Accept admits is never
+    evaluated by the monitor with an unbound alias; a shape rejected for an unbound / late reference is, on some trace
+    (must-fail instance: the rule is not vacuous on these shapes).  Spec only: the shapes are the trees the grammar assigns."""
+    import json
+    import os
+    shapes = []
+    for fam, n in (('simple', 150 if thorough else 60), ('disj', 80 if thorough else 30)):
+        sents, _ = grammar.enumerate_shapes(fam)
+        for s in rnd.sample(sents, min(n, len(sents))):
+            toks, exp = render.substitute(s, names={'x': 'v'}, lits=grammar.STD_LITS)
+            shapes.append({'text': ' '.join(toks), 'orig': grammar.fix_var_names(exp)})
+    os.makedirs(tlc.BUILD, exist_ok=True)
+    path = os.path.join(tlc.BUILD, 'props_c02_%d.json' % os.getpid())
+    with open(path, 'w') as f:
+        json.dump(shapes, f)
+    try:
+        maxlen = 4 if thorough else 3
+        r = tlc.run_model('MC_Monitor', cfg_text=MON_CFG % (maxlen, 'BindingSufficient'), env={'PROPS_FILE': path}, timeout=3000)
+        rep.add_tlc(r)
+        if r['violated']:
+            rep.violation('model:BindingSufficient', 'the binding-order rule admits a shape that the monitor evaluates with an unbound alias (HplScoping vs HplMonitor)',
+                          {'trace': [l for l in r['out'].splitlines() if l.startswith('tr = ') or l.startswith('/\\ tr')][-1:]})
+        elif not r['ok']:
+            raise tlc.MachineryError(r['out'][-3000:])
+        r2 = tlc.run_model('MC_Monitor', cfg_text=MON_CFG % (3, 'RejectedNeverMiss'), env={'PROPS_FILE': path}, timeout=3000)
+        rep.add_tlc(r2)
+        if r2['violated'] != 'RejectedNeverMiss':
+            raise tlc.MachineryError('no rejected shape is ever evaluated with an unbound alias: the binding theorem is vacuous on this sample\n' + r2['out'][-1500:])
+        rep.cov['binding_theorem'] = {'shapes': len(shapes), 'MaxLen': maxlen, 'holds': not r['violated'], 'must_fail_instance_fails': True}
+    finally:
+        os.unlink(path)
+
+
 def run(replay=None):
     import_hpl()
     rep = Report('C02')
@@ -44,6 +89,7 @@ def run(replay=None):
             eid += 1
             events.append({'id': eid, 'expected': exp, 'outs': ways(text, exp, base)})
             info[eid] = text
+    binding_theorem(rep, rnd, thorough)
     canaries = []
     for ev in events:
         if all(o[1] == 'ast' for o in ev['outs']):
